@@ -297,6 +297,18 @@ CbRet(b) ==
             /\ UNCHANGED owed
     /\ UNCHANGED <<pool, heap, cfg>>
 
+\* The `internals' builders / consumer used directly and then abandoned (dropped before completion):
+\* exactly like a callback operation whose next callback never comes - everything not yet handed
+\* out and everything already built must be dropped before the abandonment is over.
+Abandon ==
+    /\ ~Idle /\ IsCbOp(op.name) /\ op.phase = "idle"
+    /\ LET rest == UNION {SeqRange(DropN(op.srcs[i], op.k)) : i \in {j \in DOMAIN op.srcs : op.byval[j]}}
+           f == Scoped(rest \cup SeqRange(op.out), OpScope)
+       IN /\ owed' = OwedAfterOwe(f)
+          /\ life' = LifeAfterOwe(f)
+    /\ op' = [op EXCEPT !.phase = "unwinding"]
+    /\ UNCHANGED <<pool, loose, heap, cfg>>
+
 \* Clone::clone / Default::default of an element are the callbacks of
 \* Clone / Default / iterator clone (call and return in one step)
 CloneGuard(src) ==
